@@ -21,7 +21,7 @@ CHECKS = {
          "Each Query's replies and every value the handler observes (Written(), errors of Row/Complete/... ) are compared message by message with the reference model.", "3 C05"),
  "C06": ("exploration", E1, "deterministic simulation: seeded extended-protocol histories with scripted failures, refinement against the reference model with discard-until-Sync, quiescence snapshots for 'delivered without waiting'",
          "Designated replies, one ReadyForQuery per Sync, exactly one ErrorResponse then silence until Sync, unknown names as errors; judged per message and per quiescence point.", "3 C06"),
- "C07": ("exploration", E1 + " + " + E2, "deterministic simulation: seeded name-reuse histories with unique definitions, per-connection namespace model; seeded interleavings of connections sharing names",
+ "C07": ("exploration", E1 + " + " + E2 + " (-race shard)", "deterministic simulation: seeded name-reuse histories with unique definitions, per-connection namespace model; seeded interleavings of connections sharing names, with the HB-transparent race oracle on the concurrent sets",
          "Each Execute/Describe must be attributable to the definition current at Bind time; Close makes names unresolvable; concurrent connections using the same names must each equal their own model run.", "3 C07"),
  "C08": ("exploration", E1, "deterministic simulation: seeded Bind shapes x traffic between Bind and Execute x segmentation, reference model of the format-code rule, byte equality and independent decoders on what the statement function observes",
          "Parameters are zero-copy windows into the connection's read buffer created at Bind and consumed at a later Execute, so the guarantee depends on the message history in between; every observed count/value/format/Scan result and the portal's RowDescription/DataRow formats are compared with the model.", "3 C08"),
@@ -91,7 +91,7 @@ def main():
         },
         "engines": [
             {"name": "E1", "path": "harness/runtime.go", "serves_properties": [p for p in props if p in CHECKS], "kind_free_text": "single logical thread per connection: the client is a script interpreted inside the simulated net.Conn's Read (exact quiescence), byte-level segmentation and transport fault plans, inside a testing/synctest bubble"},
-            {"name": "E2", "path": "harness/kernel.go", "serves_properties": [p for p in ("C07","C08","C09","C11","C12","C15","C16") if p in CHECKS], "kind_free_text": "seeded cooperative scheduler over testing/synctest: one goroutine runs between decisions, schedule points at transport ops, callbacks, hand-placed hooks and AST-spliced sync operations; HB-transparent under -race"},
+            {"name": "E2", "path": "harness/kernel.go", "serves_properties": [p for p in ("C04","C05","C07","C08","C09","C11","C12","C15","C16","C18","C19") if p in CHECKS], "kind_free_text": "seeded cooperative scheduler over testing/synctest: one goroutine runs between decisions, schedule points at transport ops, callbacks, hand-placed hooks and AST-spliced sync operations; HB-transparent under -race"},
         ],
         "checks": checks,
         "not_applicable": na,
